@@ -129,24 +129,86 @@ func toHash(x *big.Float) *big.Int {
 	return z
 }
 
-// band returns quantile(t-tau), quantile(t), quantile(t+tau) for t = h/2^256.
-func band(w, T, S uint64, h *big.Int) (lo, mid, hi uint64, steps int) {
+// epsRel is the RELATIVE half-width of the band on the upper-tail budget u = 1 - t in
+// the mirrored branch of choose (t > 0.99). There the code computes u from the 256-bit
+// quotient BEFORE rounding to float64 and compares it with the mirrored CDF
+// F(h; n, 1-p), so its error is relative to u, however small u is:
+//
+//	epsRel = 2e-9 + 4e-15*w*ln(w+2) + 4*(j+2)*2^-53/p
+//
+// (log-gamma rounding of the incomplete beta function, as in tau; and the rounding of
+// 1-p to float64, a relative error 2^-54/p of p, which enters the tail Pr(X > j) ~ p^(j+1)
+// about j+1 times.) Measured on the unchanged code (30000 parameter sets, probes at
+// relative distances 1e-12..1e-4 on either side of upper-tail steps at levels 2^-7..2^-176):
+// the largest distance at which choose was on the wrong side is 0.15*epsRel
+// (5e-10 at w = 10^5; 1e-7 at p = 4e-9, j = 7).
+func epsRel(w, T, S, j uint64) float64 {
+	p := float64(T) / float64(S)
+	return 2e-9 + 4e-15*float64(w)*math.Log(float64(w)+2) + 4*float64(j+2)*math.Pow(2, -53)/p
+}
+
+// the mirrored branch is taken for float64(t) > 0.99; the relative rule is applied
+// only clearly inside it
+var mirroredFrom = newF().SetFloat64(0.9900001)
+
+// bandInfo is the set of seat counts the oracle accepts for one (w, T, S, hash).
+type bandInfo struct {
+	lo, mid, hi uint64 // accept lo <= j <= hi; mid = exact quantile of hash/2^256
+	steps       int
+	relative    bool    // the relative upper-tail rule was applied
+	eps         float64 // its relative half-width
+}
+
+// band computes the accepted seat counts.
+//
+// Everywhere: quantile(t-tau) <= j <= quantile(t+tau), t = hash/2^256 (absolute rule).
+// In the mirrored branch additionally: uq(uS*(1+eps)) <= j <= uq(uI*(1-eps)), where
+// uq(x) is the smallest j with Pr(X > j) <= x, eps = epsRel, and uS = 1 - hash/2^256
+// (the statement's reading) and uI = 1 - hash/(2^256-1) (the code's reading, under which
+// the all-ones output means t = 1 and wins the whole stake) - the two readings differ
+// only within ~2^-200 of the top, and a result is accepted if either explains it.
+func band(w, T, S uint64, h *big.Int) bandInfo {
 	t := fraction(h)
 	tf, _ := t.Float64()
 	tw := newF().SetFloat64(tau(w, tf))
 	s := newScanner(w, T, S)
-	lo = s.advanceTo(newF().Sub(t, tw))
-	mid = s.advanceTo(t)
+	var b bandInfo
+	b.lo = s.advanceTo(newF().Sub(t, tw))
+	b.mid = s.advanceTo(t)
 	up := newF().Add(t, tw)
 	if up.Cmp(fU(1)) >= 0 {
-		hi = w // F(j) < 1 for every j < w (0 < p < 1), and F(w) = 1
-		if s.one {
-			hi = w
-		}
+		b.hi = w // F(j) < 1 for every j < w (0 < p < 1), and F(w) = 1
 	} else {
-		hi = s.advanceTo(up)
+		b.hi = s.advanceTo(up)
 	}
-	return lo, mid, hi, s.steps
+	b.steps = s.steps
+	if t.Cmp(mirroredFrom) <= 0 {
+		return b
+	}
+	one := fU(1)
+	uS := newF().Sub(one, t)
+	uI := newF().Sub(one, newF().Quo(newF().SetInt(h), newF().SetInt(maxHash)))
+	s1 := newScanner(w, T, S)
+	jI := s1.advanceTo(newF().Sub(one, uS)) // (uI may be 0: F never reaches 1 below w)
+	b.eps = epsRel(w, T, S, jI)
+	if b.eps > 0.5 {
+		b.eps = 0.5
+	}
+	b.relative = true
+	s2 := newScanner(w, T, S)
+	loR := s2.advanceTo(newF().Sub(one, newF().Mul(uS, newF().SetFloat64(1+b.eps))))
+	hiR := w
+	if uI.Sign() > 0 {
+		hiR = s2.advanceTo(newF().Sub(one, newF().Mul(uI, newF().SetFloat64(1-b.eps))))
+	}
+	b.steps += s1.steps + s2.steps
+	if loR > b.lo {
+		b.lo = loR
+	}
+	if hiR < b.hi {
+		b.hi = hiR
+	}
+	return b
 }
 
 func keccak(b ...[]byte) []byte {
